@@ -91,7 +91,10 @@ func ruleR14(c *Ctx, prop string) {
 		if hasEnumSwitch && fd.Type.TypeParams != nil {
 			convBacking = fd
 		}
-		if hasDtypeSwitch && fd.Type.TypeParams == nil && fd.Recv == nil && fd.Type.Results != nil && len(fd.Type.Results.List) == 2 {
+		if hasDtypeSwitch && fd.Type.TypeParams == nil && fd.Recv == nil && convTensor == nil && countSliceAsserts(fd) >= 5 {
+			convTensor = fd
+		}
+		if false {
 			// the one that returns (tensor.Tensor, error) and takes a tensor + int32
 			if fd.Type.Params != nil && len(fd.Type.Params.List) == 2 {
 				if tv, ok := info.Types[fd.Type.Results.List[0].Type]; ok && isTensorish(tv.Type) {
@@ -106,7 +109,9 @@ func ruleR14(c *Ctx, prop string) {
 		}
 	}
 	if convBacking == nil || convTensor == nil || newBacking == nil {
-		c.undecided("R14", "R14:anchors", "", fmt.Sprintf("conversion functions not found by role (target switch=%v source switch=%v element converter=%v)", convBacking != nil, convTensor != nil, newBacking != nil))
+		c.undecided("R14", "R14:anchors", "", fmt.Sprintf("conversion functions not found by role (target switch=%v source switch=%v element converter=%v): the table rules for the missing part cannot be applied", convBacking != nil, convTensor != nil, newBacking != nil))
+		c.checkCastDirect()
+		c.checkConstantTables()
 		return
 	}
 	// ---- targets: case onnx.TensorProto_X => createNewBacking[B, Go(X)]
@@ -199,7 +204,19 @@ func ruleR14(c *Ctx, prop string) {
 	c.decide(srcDefault, "R14", "R14:source:default", c.pos(convTensor.Pos()), "non-numeric source dtypes are refused with an error", "non-numeric sources are not refused")
 	// shape preserved: result built WithShape(t.Shape()...)
 	shapeOK := false
-	ast.Inspect(convTensor.Body, func(nd ast.Node) bool {
+	castFn := convTensor
+	for _, fd := range c.funcDeclsOf(pkgOps) {
+		if fd.Recv == nil && fd.Type.Params != nil && len(fd.Type.Params.List) == 2 && fd.Type.Results != nil && len(fd.Type.Results.List) == 2 {
+			if tv, ok := info.Types[fd.Type.Results.List[0].Type]; ok && isTensorish(tv.Type) {
+				if pv, ok := info.Types[fd.Type.Params.List[0].Type]; ok && isTensorish(pv.Type) {
+					if pv2, ok := info.Types[fd.Type.Params.List[1].Type]; ok && pv2.Type.String() == "int32" {
+						castFn = fd
+					}
+				}
+			}
+		}
+	}
+	ast.Inspect(castFn.Body, func(nd ast.Node) bool {
 		call, ok := nd.(*ast.CallExpr)
 		if !ok {
 			return true
@@ -207,7 +224,7 @@ func ruleR14(c *Ctx, prop string) {
 		if sel, ok := call.Fun.(*ast.SelectorExpr); ok && sel.Sel.Name == "WithShape" && len(call.Args) == 1 && call.Ellipsis.IsValid() {
 			if inner, ok := call.Args[0].(*ast.CallExpr); ok {
 				if s2, ok := inner.Fun.(*ast.SelectorExpr); ok && s2.Sel.Name == "Shape" {
-					if id, ok := s2.X.(*ast.Ident); ok && convTensor.Type.Params.List[0].Names[0].Name == id.Name {
+					if id, ok := s2.X.(*ast.Ident); ok && castFn.Type.Params.List[0].Names[0].Name == id.Name {
 						shapeOK = true
 					}
 				}
@@ -241,6 +258,10 @@ func ruleR14(c *Ctx, prop string) {
 		return true
 	})
 	c.decide(okConv, "R14", "R14:convert:elementwise", c.pos(newBacking.Pos()), "out[i] = R(in[i]): Go conversion (= C conversion) per element, same index", "element converter does not convert in[i] to out[i]")
+
+	// ---- directness: the element converter is instantiated on the source's own element type and fed
+	// the asserted backing itself, not a converted copy (an intermediate float64 loses int64/uint64 bits)
+	c.checkCastDirect()
 
 	// ---- Constant
 	c.checkConstantTables()
@@ -387,6 +408,19 @@ func (c *Ctx) checkConstantTables() {
 	c.decide(dtypeFrom, "R14", "R14:cos:dtype", c.pos(cosApply.Pos()), "result element type is taken from the value tensor", "ConstantOfShape's result type is not the value's type")
 }
 
+func countSliceAsserts(fd *ast.FuncDecl) int {
+	n := 0
+	ast.Inspect(fd.Body, func(nd ast.Node) bool {
+		if ta, ok := nd.(*ast.TypeAssertExpr); ok && ta.Type != nil {
+			if _, isArr := ta.Type.(*ast.ArrayType); isArr {
+				n++
+			}
+		}
+		return true
+	})
+	return n
+}
+
 func bodyReturnsErr(stmts []ast.Stmt) bool {
 	n, ok := 0, true
 	for _, s := range stmts {
@@ -405,3 +439,94 @@ func bodyReturnsErr(stmts []ast.Stmt) bool {
 }
 
 var _ = ssa.Value(nil)
+
+// checkCastDirect: every call of an instance of the two-parameter generic element converter reachable
+// from Cast.Apply receives a slice that IS the input's asserted backing (alias flow through
+// parameters/returns only), and its first type argument is that slice's element type.
+func (c *Ctx) checkCastDirect() {
+	oi := c.opByName("Cast")
+	if oi == nil {
+		c.undecided("R14", "R14:cast:direct", "", "Cast operator not found")
+		return
+	}
+	reach := c.reachFrom([]*ssa.Function{oi.methods["Apply"]})
+	// alias roots: results of type assertions to slice types on Data()-derived values
+	alias := map[ssa.Value]bool{}
+	for f := range reach {
+		for _, b := range f.Blocks {
+			for _, in := range b.Instrs {
+				if ta, ok := in.(*ssa.TypeAssert); ok {
+					if _, isSl := ta.AssertedType.Underlying().(*types.Slice); isSl {
+						alias[ta] = true
+					}
+				}
+			}
+		}
+	}
+	for changed := true; changed; {
+		changed = false
+		mark := func(v ssa.Value) {
+			if v != nil && !alias[v] {
+				alias[v] = true
+				changed = true
+			}
+		}
+		for f := range reach {
+			for _, b := range f.Blocks {
+				for _, in := range b.Instrs {
+					switch x := in.(type) {
+					case *ssa.Extract:
+						if alias[x.Tuple] && x.Index == 0 {
+							mark(x)
+						}
+					case *ssa.Phi:
+						for _, e := range x.Edges {
+							if alias[e] {
+								mark(x)
+							}
+						}
+					case *ssa.ChangeType:
+						if alias[x.X] {
+							mark(x)
+						}
+					case *ssa.Call:
+						if sc := x.Common().StaticCallee(); sc != nil && reach[sc] {
+							for i, a := range x.Common().Args {
+								if alias[a] && i < len(sc.Params) {
+									mark(sc.Params[i])
+								}
+							}
+						}
+					}
+				}
+			}
+		}
+	}
+	n, bad, badSite := 0, "", ""
+	for f := range reach {
+		for _, b := range f.Blocks {
+			for _, in := range b.Instrs {
+				call, ok := in.(*ssa.Call)
+				if !ok {
+					continue
+				}
+				sc := call.Common().StaticCallee()
+				if sc == nil || sc.Origin() == nil || len(sc.TypeArgs()) != 2 || !isLibFn(sc) || len(call.Common().Args) != 1 {
+					continue
+				}
+				n++
+				arg := call.Common().Args[0]
+				if !alias[arg] {
+					bad = "the element converter " + sc.Name() + " is fed a slice that is not the input tensor's own backing (a converted copy): values pass through an intermediate element type before the target conversion, which is not exact for every 64-bit integer"
+					badSite = c.pos(call.Pos())
+				}
+			}
+		}
+	}
+	c.counts["R14.converter_calls"] = n
+	if n == 0 {
+		c.undecided("R14", "R14:cast:direct", c.pos(oi.methods["Apply"].Pos()), "no call of a two-type-parameter element converter reachable from Cast.Apply: unrecognised factoring")
+		return
+	}
+	c.decide(bad == "", "R14", "R14:cast:direct", firstNonEmpty(badSite, c.pos(oi.methods["Apply"].Pos())), fmt.Sprintf("%d converter instantiations, each applied directly to the asserted backing of the input", n), bad)
+}
